@@ -1,5 +1,5 @@
 # C20 — Bloom filters: no false negatives, Parquet SBBF algorithm, XXH64
-XX = dict(harness='harness/C20/xxh64.c', entry='h_xxh64', backend='z3', level='bounded',
+XX = dict(harness='harness/C20/xxh64.c', entry='h_xxh64', backend=['z3', 'sat'], level='bounded',
           includes=['.'], extra_sources=[], functions=['carquet_xxhash64'], timeout=300,
           checks=['--bounds-check', '--pointer-check'])
 QUICK_LENS = [0, 1, 3, 4, 7, 8, 12, 15, 31, 32, 33, 39, 63, 64, 65, 96, 100]
